@@ -203,7 +203,8 @@ def opHash (alg : String) (chunks : List String) : String :=
       if alg == "md4" then some (run Md4.alg) else if alg == "md5" then some (run Md5.alg)
       else if alg == "sha1" then some (run Sha1.alg) else if alg == "sha256" then some (run Sha256.alg)
       else if alg == "sha512" then some (run Sha512.alg)
-      else if alg == "gost256" then some (Streebog.hash256 (cs.flatMap id))
+      else if alg == "gost256" then some (Streebog.streamed256 cs)
+      else if alg == "gost512" then some (Streebog.streamed512 cs)
       else none
     match d with
     | some d => s!"d={showBytes d} ctxzero=1"
